@@ -54,8 +54,10 @@ REDUCE = {"sum": "SUM", "mean": "MEAN", "std": "STD", "min": "MIN", "max": "MAX"
 
 
 class SymEval:
-    def __init__(self, repo, opaque=(), inline_depth=4, assume_masks_nonempty=True):
+    def __init__(self, repo, opaque=(), inline_depth=4, assume_masks_nonempty=True, opaque_tests=None):
         self.repo = repo
+        self.assume = {}                     # "call:<callee>" / "text:<normalised test>" -> bool (stated per rule)
+        self.opaque_tests = opaque_tests     # None: explore both arms; True/False: shape-like tests the term domain cannot see take this value
         self.opaque = set(opaque)
         self.inline_depth = inline_depth
         self.issues = []          # (where, text)
@@ -125,6 +127,7 @@ class Env:
         self.result = None
         self.param_updates = {}
         self.pins = {}
+        self.elem = {}          # (array text, index term) -> stored value
 
     def where(self, node):
         return self.fi.where(node) if self.fi else "%s:%s" % (self.mod.relpath, getattr(node, "lineno", "?"))
@@ -259,6 +262,12 @@ class Env:
     # ---- truth of tests ---------------------------------------------------
     def truth(self, t):
         """True / False / 'mask' / sympy condition"""
+        if self.se.assume:
+            k = "text:" + norm(t)
+            if k in self.se.assume:
+                return self.se.assume[k]
+            if isinstance(t, ast.Call) and ("call:%s" % call_name(t)) in self.se.assume:
+                return self.se.assume["call:%s" % call_name(t)]
         if isinstance(t, ast.BoolOp):
             vals = [self.truth(v) for v in t.values]
             if isinstance(t.op, ast.And):
@@ -315,7 +324,10 @@ class Env:
                 return bool(v != 0)
             return sp.Ne(v, 0)
         if isinstance(v, Opaque):
-            # a test the term domain cannot see into: an uninterpreted boolean (both arms are explored and merged)
+            # a test the term domain cannot see into
+            if self.se.opaque_tests is not None:
+                return self.se.opaque_tests
+            # an uninterpreted boolean (both arms are explored and merged)
             return sp.Symbol("B_" + "".join(ch if ch.isalnum() else "_" for ch in txt)[:40])
         raise Unsupported("symx: cannot decide test `%s` at %s" % (txt, self.where(t)))
 
@@ -350,8 +362,10 @@ class Env:
                 base[idx] = v
             elif isinstance(base, (list,)) and isinstance(idx, int):
                 base[idx] = v
+            elif _is_expr(idx) or (isinstance(idx, tuple) and all(_is_expr(i) or isinstance(i, slice) for i in idx)):
+                # element store x[i] = v: remembered per (array, index)
+                self.elem[(norm(t.value), _idx_key(idx))] = v
             else:
-                # element store x[i] = v  ->  keep as an indexed update function
                 self.assign(t.value, Opaque("indexed-store"), st)
         elif isinstance(t, ast.Attribute):
             self.vars[norm(t)] = v
@@ -426,6 +440,8 @@ class Env:
                 base = self.ev(e.value)
                 if isinstance(base, (tuple, list)):
                     return sp.Integer(len(base))
+                if isinstance(base, Mask):
+                    return sp.Symbol("NSEL", positive=True, integer=True)
                 return sp.Function("SIZE")(_as_expr(base)) if _is_expr(base) else Opaque("size")
             if e.attr in ("shape", "dtype", "ndim"):
                 return Opaque(norm(e))
@@ -469,8 +485,11 @@ class Env:
         if isinstance(e, ast.Dict):
             return {self.ev(k): self.ev(v) for k, v in zip(e.keys, e.values)}
         if isinstance(e, ast.Subscript):
-            base = self.ev(e.value)
             idx = self.ev_index(e.slice)
+            k = (norm(e.value), _idx_key(idx))
+            if k in self.elem:
+                return self.elem[k]
+            base = self.ev(e.value)
             return self.subscript(base, idx, e)
         if isinstance(e, ast.Call):
             return self.call(e, stmt_level)
@@ -483,6 +502,8 @@ class Env:
         raise Unsupported("symx: expression %s at %s" % (type(e).__name__, self.where(e)))
 
     def subscript(self, base, idx, e):
+        if isinstance(base, Mask):
+            return base            # an element of an index set stands for the set (element-wise view)
         if isinstance(idx, Mask):
             if isinstance(base, (tuple, list)):
                 self.se.issues.append((self.where(e), "`%s`: a per-point boolean mask indexes the first (component) axis of a stacked "
@@ -518,6 +539,10 @@ class Env:
                 return base
             if _is_expr(idx):
                 return sp.Function("AT")(_as_expr(base), _as_expr(idx))
+            if isinstance(idx, tuple) and all(_is_expr(i) for i in idx):
+                return sp.Function("AT")(_as_expr(base), *[_as_expr(i) for i in idx])
+            if isinstance(idx, tuple) and any(isinstance(i, Mask) for i in idx):
+                return base
             if isinstance(idx, slice):
                 return sp.Function("SLICE")(_as_expr(base), *[_as_expr(x) if x is not None else sp.Symbol("None") for x in (idx.start, idx.stop, idx.step)])
         if isinstance(base, Opaque):
@@ -551,6 +576,8 @@ class Env:
             if isinstance(op, ast.Eq):
                 return a == b
             raise Unsupported("symx: sequence comparison at %s" % self.where(e))
+        if isinstance(a, Opaque) or isinstance(b, Opaque):
+            return Opaque("cmp(%s)" % norm(e))
         if not (_is_expr(a) and _is_expr(b)):
             raise Unsupported("symx: comparison of %r and %r at %s" % (a, b, self.where(e)))
         a, b = _as_expr(a), _as_expr(b)
@@ -751,6 +778,14 @@ class Env:
                 x = self.ev(recv_node)
                 if _is_expr(x):
                     return sp.Function(REDUCE[nm])(_as_expr(x))
+            if nm == "searchsorted":
+                x = self.ev(recv_node)
+                if _is_expr(x):
+                    return sp.Function("SEARCHSORTED")(_as_expr(x), _as_expr(A(0)))
+            if nm == "argsort":
+                x = self.ev(recv_node)
+                if _is_expr(x):
+                    return sp.Function("ARGSORT")(_as_expr(x))
             if nm == "get":
                 base = self.ev(recv_node)
                 if isinstance(base, dict):
@@ -847,6 +882,14 @@ def _inplace_params(fi):
                         out.add(a.id)
     _inplace_cache[fi.qualname] = out
     return out
+
+
+def _idx_key(idx):
+    if isinstance(idx, tuple):
+        return tuple(_idx_key(i) for i in idx)
+    if isinstance(idx, slice):
+        return ("slice", str(idx.start), str(idx.stop), str(idx.step))
+    return str(idx)
 
 
 def _load(t):
